@@ -1166,7 +1166,7 @@ pub fn knobs_strategy(max_ops: usize) -> BoxedStrategy<Knobs> {
         proptest::collection::vec((any::<bool>(), 0u8..8, 0u8..8, -2i8..=2, any::<bool>()), 0..3),
         proptest::collection::vec((0u8..20, 0u8..20), 1..6),
         proptest::collection::vec(op, 1..max_ops),
-        (0u8..8, any::<u8>(), 0u8..3, prop_oneof![1 => Just(0u16), 2 => any::<u16>()], prop_oneof![1 => Just(0u8), 2 => any::<u8>()]),
+        (0u8..8, any::<u8>(), 0u8..4, prop_oneof![1 => Just(0u16), 2 => any::<u16>()], prop_oneof![1 => Just(0u8), 2 => any::<u8>()]),
     )
         .prop_map(|((n_advice, phases, unblinded, n_instance), gates, lookups, table, ops, (min_degree, eq_mask, k_extra, alloc, redundant))| Knobs {
             n_advice,
@@ -1359,8 +1359,26 @@ pub fn expand(kn: &Knobs) -> Spec {
         redundant: kn.redundant,
         filler_copies: kn.redundant & 1 == 1,
     };
-    spec.k = min_k(&spec) + (kn.k_extra as u32 % 3);
+    // k_extra 3: the tightest domain the constraint system admits (possibly exactly
+    // `minimum_rows` rows, i.e. two usable rows); otherwise a comfortable k plus 0..2
+    spec.k = if kn.k_extra == 3 { tight_k(&spec) } else { min_k(&spec) + (kn.k_extra as u32 % 3) };
     spec
+}
+
+/// The smallest k for which key generation and honest proving are possible at all: 2^k >=
+/// minimum_rows, and regions, tables and instance columns fit the usable rows.
+pub fn tight_k(spec: &Spec) -> u32 {
+    let mut cs = ConstraintSystem::<F>::default();
+    let _ = GenCircuit::configure_with_params(&mut cs, spec.clone());
+    let plan = build_plan(spec, 0);
+    let table = if spec.lookups.is_empty() { 0 } else { spec.table.len() + 1 };
+    let rows: usize = (plan.regions.iter().map(|r| r.height).sum::<usize>()).max(table);
+    let inst = plan.instances.iter().map(|c| c.len()).max().unwrap_or(0);
+    let mut k = 1;
+    while (1usize << k) < cs.minimum_rows() || rows.max(inst) + cs.blinding_factors() + 1 > (1usize << k) {
+        k += 1;
+    }
+    k
 }
 
 /// Smallest k such that all regions, tables and instances fit the usable rows.
